@@ -51,6 +51,7 @@ const prelude = `(set-logic ALL)
 (declare-fun b2s ((Array Int Int) Int Int) Str)
 (assert (forall ((m (Array Int Int)) (o Int) (n Int)) (! (=> (>= n 0) (= (len (b2s m o n)) n)) :pattern ((b2s m o n)))))
 (assert (forall ((m (Array Int Int)) (o Int) (n Int) (i Int)) (! (=> (and (<= 0 i) (< i n)) (= (at (b2s m o n) i) (select m (+ o i)))) :pattern ((at (b2s m o n) i)))))
+(assert (forall ((m (Array Int Int)) (o Int) (n Int) (a Int) (b Int)) (! (=> (and (<= 0 a) (<= a b) (<= b n)) (= (sub (b2s m o n) a b) (b2s m (+ o a) (- b a)))) :pattern ((sub (b2s m o n) a b)))))
 (declare-fun tagof (Int) Int)
 (declare-fun unboxI (Int) Int)
 (declare-fun unboxS (Int) Str)
@@ -113,8 +114,22 @@ func runSolver(sp solverSpec, file string, secs int) Result {
 	return r
 }
 
+// runSolverCtx is runSolver under a parent context (cancelled when another member of the race has proved the goal).
+func runSolverCtx(parent context.Context, sp solverSpec, file string, secs int) Result {
+	r := runSolverOnceCtx(parent, sp, file, secs)
+	for i := 0; i < 2 && r.Status == "error" && parent.Err() == nil && !strings.Contains(r.Output, "(error"); i++ {
+		time.Sleep(time.Duration(200*(i+1)) * time.Millisecond)
+		r = runSolverOnceCtx(parent, sp, file, secs)
+	}
+	return r
+}
+
 func runSolverOnce(sp solverSpec, file string, secs int) Result {
-	ctx, cancel := context.WithTimeout(context.Background(), time.Duration(secs+2)*time.Second)
+	return runSolverOnceCtx(context.Background(), sp, file, secs)
+}
+
+func runSolverOnceCtx(parent context.Context, sp solverSpec, file string, secs int) Result {
+	ctx, cancel := context.WithTimeout(parent, time.Duration(secs+2)*time.Second)
 	defer cancel()
 	argv := sp.argv(file, secs)
 	t0 := time.Now()
@@ -125,7 +140,15 @@ func runSolverOnce(sp solverSpec, file string, secs int) Result {
 	_ = cmd.Run()
 	dt := time.Since(t0).Seconds()
 	o := out.String()
-	first := strings.TrimSpace(strings.SplitN(o, "\n", 2)[0])
+	first := ""
+	for _, ln := range strings.Split(o, "\n") {
+		ln = strings.TrimSpace(ln)
+		if ln == "" || strings.HasPrefix(ln, "WARNING:") {
+			continue
+		}
+		first = ln
+		break
+	}
 	st := "error"
 	switch {
 	case first == "unsat", first == "sat", first == "unknown":
@@ -167,31 +190,38 @@ func solve(file string, secs int, all bool) (Result, []Result) {
 		}
 		return best, rs
 	}
-	r := runSolver(solvers[0], file, secs)
+	// stage 1: the base seed alone, short budget (most obligations are decided in well under a second)
+	short := secs
+	if short > 6 {
+		short = 6
+	}
+	r := runSolver(solvers[0], file, short)
 	if r.Status == "unsat" || r.Status == "sat" {
 		return r, []Result{r}
 	}
-	if r.Status == "unknown" && r.Seconds < 5 {
-		// the solver gave up early (incomplete quantifier instantiation): such answers depend on the search order
-		for _, d := range []int{1, 2} {
-			x := runSolver(z3Seeded(solverSeed+d), file, secs)
-			if x.Status == "unsat" {
-				return x, []Result{r, x}
-			}
-		}
-	}
-	ch := make(chan Result, len(solvers))
-	for _, sp := range solvers[1:] {
-		go func() { ch <- runSolver(sp, file, secs) }()
+	// stage 2: an `unsat` under any seed or solver is a proof, and hard queries are sensitive to the search order:
+	// race the base seed with the full budget, two other seeds and cvc5; the first `unsat` wins
+	specs := []solverSpec{solvers[0], z3Seeded(solverSeed + 1), z3Seeded(solverSeed + 2)}
+	specs = append(specs, solvers[1:]...)
+	ctx, cancel := context.WithCancel(context.Background())
+	defer cancel()
+	ch := make(chan Result, len(specs))
+	for _, sp := range specs {
+		go func() { ch <- runSolverCtx(ctx, sp, file, secs) }()
 	}
 	rs := []Result{r}
 	best := r
-	for i := 0; i < len(solvers)-1; i++ {
+	for range specs {
 		x := <-ch
 		rs = append(rs, x)
-		if x.Status == "unsat" && best.Status != "unsat" {
+		if x.Status == "unsat" {
 			best = x
-		} else if x.Status == "sat" && best.Status != "unsat" && best.Status != "sat" {
+			cancel()
+			break
+		}
+		if x.Status == "sat" && best.Status != "sat" {
+			best = x
+		} else if best.Status == "unknown" && x.Status == "timeout" && x.Solver == solvers[0].name {
 			best = x
 		}
 	}
